@@ -306,6 +306,32 @@ class PropertyRun:
                 reproduced = (v, ctx, status, detail)
                 break
         if reproduced is None:
+            # solver models sit on the boundary of the violating region (e.g. exactly at a tolerance), where the floating-point
+            # replay can fall on the other side: confirm with inputs moved slightly into the region.  A perturbed input that
+            # fails on the real code is a genuine failing input; it is reported as such.
+            for v in [x for x in vs[:5] if x["inputs"] is not None]:
+                vals = v["inputs"].get("values", {})
+                kinds = v["inputs"].get("kinds", {})
+                reals = [n for n in vals if kinds.get(n) == "real" and vals[n] != 0]
+                trials = []
+                for f in (Fraction(1, 2), Fraction(3, 4), Fraction(9, 10), Fraction(99, 100), Fraction(101, 100), Fraction(11, 10), Fraction(2)):
+                    for n in reals[:12]:
+                        trials.append({n: f})
+                for sc in trials:
+                    inp = dict(v["inputs"])
+                    inp["values"] = {n: (Fraction(x) * sc[n] if n in sc else x) for n, x in vals.items()}
+                    with self._contexts(unit, False):
+                        ctx, status, detail = engine.run_concrete(unit.body, inp)
+                    tried += 1
+                    if status in ("failed", "exception"):
+                        v2 = dict(v)
+                        v2["inputs"] = inp
+                        reproduced = (v2, ctx, status, detail)
+                        vs = [v2] + list(vs)
+                        break
+                if reproduced is not None:
+                    break
+        if reproduced is None:
             self.inconclusive.append(
                 f"{unit.name}: solver counterexample for '{label}' did not reproduce on the real code in {tried} models (last: {last}); symbolic detail: {vs[0].get('detail','')[:300]}"
             )
